@@ -5,6 +5,15 @@
 //!   lt le gt ge eq (0/1)  partial_cmp (0 None 1 Less 2 Equal 3 Greater)
 //!   raw(min) raw(max) raw(abs x)
 //! where x = f80::from(a), y = f80::from(b) and raw = (sign/exponent u16, significand u64).
+//!
+//! Then the relations on EXTENDED-FORMAT operands (values that are not images of an f64), with
+//!   m = x*y + x,  p = x*y,  q = x/y,  s = x+y   and   n_e = f80::from(f64::from(e)):
+//!   bits(f64(m))  raw(n_m) raw(n_p) raw(n_q) raw(n_s)
+//!   rel(m,n_m) rel(n_m,m) rel(p,n_p) rel(n_p,p) rel(q,n_q) rel(n_q,q) rel(s,n_s) rel(n_s,s)
+//!   rel(m,p) rel(p,s) rel(s,q)
+//!   raw(abs m) raw(abs p) raw(abs q) raw(abs s)
+//! where rel(u,v) = `code raw(u.min(v)) raw(u.max(v))` and
+//!   code = [u<v] + 2[u<=v] + 4[u>v] + 8[u>=v] + 16[u==v] + 32*partial_cmp(u,v).
 use rlib_f80::f80;
 use std::cmp::Ordering;
 
@@ -15,6 +24,33 @@ fn raw(x: f80) -> (u16, u64) {
         u16::from_le_bytes([b[8], b[9]]),
         u64::from_le_bytes([b[0], b[1], b[2], b[3], b[4], b[5], b[6], b[7]]),
     )
+}
+
+fn pcmp(u: f80, v: f80) -> u32 {
+    match u.partial_cmp(&v) {
+        None => 0,
+        Some(Ordering::Less) => 1,
+        Some(Ordering::Equal) => 2,
+        Some(Ordering::Greater) => 3,
+    }
+}
+
+fn push_raw(out: &mut Vec<String>, r: f80) {
+    let (se, m) = raw(r);
+    out.push(format!("{} {}", se, m));
+}
+
+/// every relation of the crate on the ordered pair (u, v)
+fn rel(out: &mut Vec<String>, u: f80, v: f80) {
+    let code = (u < v) as u32
+        + 2 * ((u <= v) as u32)
+        + 4 * ((u > v) as u32)
+        + 8 * ((u >= v) as u32)
+        + 16 * ((u == v) as u32)
+        + 32 * pcmp(u, v);
+    out.push(format!("{}", code));
+    push_raw(out, u.min(v));
+    push_raw(out, u.max(v));
 }
 
 fn main() {
@@ -28,8 +64,7 @@ fn main() {
         let ch = mad / y;
         let mut out: Vec<String> = Vec::new();
         for r in [x, y, s, d, p, q, n, mad, ch] {
-            let (se, m) = raw(r);
-            out.push(format!("{} {}", se, m));
+            push_raw(&mut out, r);
         }
         for r in [x, s, d, p, q, ch] {
             out.push(format!("{}", f64::from(r).to_bits()));
@@ -37,18 +72,26 @@ fn main() {
         for v in [x < y, x <= y, x > y, x >= y, x == y] {
             out.push(format!("{}", v as u8));
         }
-        out.push(
-            match x.partial_cmp(&y) {
-                None => "0",
-                Some(Ordering::Less) => "1",
-                Some(Ordering::Equal) => "2",
-                Some(Ordering::Greater) => "3",
-            }
-            .to_string(),
-        );
+        out.push(format!("{}", pcmp(x, y)));
         for r in [x.min(y), x.max(y), x.abs()] {
-            let (se, m) = raw(r);
-            out.push(format!("{} {}", se, m));
+            push_raw(&mut out, r);
+        }
+        // relations on operands that need the extended format
+        let ext = [mad, p, q, s];
+        let through64: Vec<f80> = ext.iter().map(|&e| f80::from(f64::from(e))).collect();
+        out.push(format!("{}", f64::from(mad).to_bits()));
+        for &r in &through64 {
+            push_raw(&mut out, r);
+        }
+        for (&e, &ne) in ext.iter().zip(through64.iter()) {
+            rel(&mut out, e, ne);
+            rel(&mut out, ne, e);
+        }
+        rel(&mut out, mad, p);
+        rel(&mut out, p, s);
+        rel(&mut out, s, q);
+        for &e in &ext {
+            push_raw(&mut out, e.abs());
         }
         out.join(" ")
     });
